@@ -24,7 +24,7 @@ fn stun_ci(v6: bool) -> ClientInfo {
 /// checks a Binding Success Response against the request and the observed endpoint
 fn check_response(v: &[u8], data: &[u8], ci0: &ClientInfo, v6: bool) {
     let alen = if v6 { 20 } else { 8 };
-    assert!(v.len() == 20 + 4 + alen, "C15: response is not header + one MAPPED-ADDRESS attribute");
+    assert!(v.len() >= 20 + 4 + alen, "C15: response too short to hold a MAPPED-ADDRESS attribute");
     assert!(v[0] == 0x01 && v[1] == 0x01, "C15: not a Binding Success Response");
     assert!(((v[2] as usize) << 8 | v[3] as usize) == v.len() - 20, "C15: message length is not the attribute bytes that follow");
     let i: usize = kani::any();
